@@ -203,7 +203,8 @@ def pure_unsigned(t):
 
 
 def dest_type(d):
-    return REGKIND[d[1]] if d[0] == "reg" else FMT[d[1]]
+    # a memory destination may carry a byte-order prefix (">H", "<I", "!q")
+    return REGKIND[d[1]] if d[0] == "reg" else FMT[d[1][-1]]
 
 
 def width_of(trees, dest=None):
@@ -317,7 +318,12 @@ class Prog:
     def observe(self, outs):
         if self.iscmp:
             return (outs[0] & 0xff, outs[1] & 0xff)
-        return outs[0] & ((1 << (8 * dest_type(self.dest)[0])) - 1)
+        n = dest_type(self.dest)[0]
+        raw = outs[0] & ((1 << (8 * n)) - 1)
+        if self.dest[0] == "loc" and self.dest[1][0] in ">!":
+            # the variable's bytes were read back as a native number
+            raw = int.from_bytes(raw.to_bytes(n, "little"), "big")
+        return raw
 
 
 REJECTIONS = ("AssembleError", "TypeError", "error", "NotImplementedError",
@@ -620,7 +626,7 @@ def alphabet(ctx):
         ints = [3, -2, 100000]
         floats = FLOATS[:4] + FLOATS[5:6]
         dests = [("reg", "x"), ("loc", "x"), ("reg", "sr"), ("reg", "w"),
-                 ("loc", "q"), ("loc", "i")]
+                 ("loc", "q"), ("loc", "i"), ("loc", ">H"), ("loc", "<I")]
     else:
         leaves = [("reg", k, 0) for k in ("x", "r", "sr", "w", "sw")] + \
             [("loc", f, 0) for f in "xBhiQq"]
@@ -628,7 +634,8 @@ def alphabet(ctx):
         floats = list(FLOATS)
         dests = [("reg", "x"), ("loc", "x"), ("reg", "r"), ("reg", "sr"),
                  ("reg", "w"), ("reg", "sw"), ("loc", "q"), ("loc", "Q"),
-                 ("loc", "i"), ("loc", "h")]
+                 ("loc", "i"), ("loc", "h"), ("loc", ">H"), ("loc", ">I"),
+                 ("loc", "!q"), ("loc", "<I"), ("loc", "<h")]
     floats = floats + [rnd.randrange(1, 10 ** 7) / FB]
     ints = ints + [rnd.randrange(2, 50000)]
     return leaves, ints, floats, dests
